@@ -13,6 +13,7 @@ The trace is a list of canonical text lines (see `Trace`), the same lines the Le
 import asyncio
 import errno as _errno
 import json
+import subprocess
 import logging
 import os
 import signal
@@ -255,8 +256,18 @@ def make_popen(k):
             self.args = args
             self.pid = k.spawn({"args": args})
             self.returncode = None
-            self.stdout = None
-            self.stderr = None
+            # a watcher with stream options asks for pipes: real ones (the Redirector registers their descriptors with the
+            # loop); nothing is ever written, the write ends live as long as this object
+            self.stdout = self.stderr = None
+            self._wends = []
+            if stdout == subprocess.PIPE:
+                r, w = os.pipe()
+                self.stdout = os.fdopen(r, "rb", 0)
+                self._wends.append(w)
+            if stderr == subprocess.PIPE:
+                r, w = os.pipe()
+                self.stderr = os.fdopen(r, "rb", 0)
+                self._wends.append(w)
             name, wid = "?", "?"
             try:
                 name = args[args.index("--name") + 1]
@@ -305,6 +316,19 @@ def make_popen(k):
 
         def wait(self, timeout=None):
             raise NotImplementedError
+
+        def __del__(self):
+            for w in self._wends:
+                try:
+                    os.close(w)
+                except OSError:
+                    pass
+            for f in (self.stdout, self.stderr):
+                try:
+                    if f is not None:
+                        f.close()
+                except (OSError, ValueError):
+                    pass
 
     return FakePopen
 
